@@ -251,6 +251,39 @@ pub fn attacks(
     out.push(Attack { expect_aud: Some(format!("{}x", aud)), ..base("verifier expects other value", "verifier expects a different aud".into(), parts.clone()) });
     out.push(Attack { expect_nonce: Some(format!("{}x", nonce)), ..base("verifier expects other value", "verifier expects a different nonce".into(), parts.clone()) });
     out.push(Attack { expect_aud: Some(nonce.to_string()), expect_nonce: Some(aud.to_string()), ..base("verifier expects other value", "verifier expects aud and nonce swapped".into(), parts.clone()) });
+    // h'. verifier expects a string that differs from the honest value only by what a
+    // "normalisation" might ignore: trailing slash, surrounding space, case, a prefix
+    {
+        let near = |v: &str| -> Vec<String> {
+            let mut out = vec![format!("{}/", v), format!("{} ", v), format!(" {}", v), format!("{}\u{0}", v)];
+            if v.ends_with('/') {
+                out.push(v.trim_end_matches('/').to_string());
+            }
+            if v.to_uppercase() != v {
+                out.push(v.to_uppercase());
+            }
+            if v.to_lowercase() != v {
+                out.push(v.to_lowercase());
+            }
+            if v.chars().count() > 1 {
+                let cut: String = v.chars().take(v.chars().count() - 1).collect();
+                out.push(cut);
+            }
+            out.push(String::new());
+            out.retain(|x| x != v);
+            out
+        };
+        let auds = near(aud);
+        if !auds.is_empty() {
+            let a = auds[ch.pick(auds.len())].clone();
+            out.push(Attack { expect_aud: Some(a.clone()), ..base("verifier expects near-identical value", format!("verifier expects aud {:?}, KB-JWT names {:?}", a, aud), parts.clone()) });
+        }
+        let nonces = near(nonce);
+        if !nonces.is_empty() {
+            let n = nonces[ch.pick(nonces.len())].clone();
+            out.push(Attack { expect_nonce: Some(n.clone()), ..base("verifier expects near-identical value", format!("verifier expects nonce {:?}, KB-JWT names {:?}", n, nonce), parts.clone()) });
+        }
+    }
     // i. only one of the two
     out.push(Attack { expect_aud: None, ..base("only one of aud/nonce", "verifier given only a nonce".into(), parts.clone()) });
     out.push(Attack { expect_nonce: None, ..base("only one of aud/nonce", "verifier given only an aud".into(), parts.clone()) });
@@ -273,7 +306,7 @@ pub fn check(case: &C04Case, st: &mut Stats) -> Verdict {
             return Ok(());
         }
     };
-    let kbargs = KbArgs { aud: case.aud.clone(), nonce: case.nonce.clone(), key: spec.holder };
+    let kbargs = KbArgs { aud: case.aud.clone(), nonce: case.nonce.clone(), key: spec.holder, default_alg: false };
     let presentation = match sut::present(&issued, spec.fmt, &case.selection, Some(&kbargs)) {
         Out::Ok(p) => p,
         _ => {
